@@ -25,8 +25,8 @@ enum { C_POOL = 0, C_SCEN, C_WAITERS, C_DESTROY, C_OUTSIDE, C_N };
 void generate(Rng& r, Workload& w, int tier) {
     int64_t scen = r.chance(1, 4) ? 1 : 0;
     int64_t outside = r.chance(1, 3) ? r.range(1, 2) : 0;
-    w.cfg = {r.range(0, 3), scen, r.chance(1, 3) ? 1 : 0, r.chance(1, 4) ? 1 : 0, outside};
-    int maxjobs = tier ? 24 : 14;
+    w.cfg = {r.range(0, tier ? 5 : 3), scen, r.chance(1, 3) ? 1 : 0, r.chance(1, 4) ? 1 : 0, outside};
+    int maxjobs = tier ? 40 : 14;
     int njobs = int(r.range(0, maxjobs));
     int rounds = scen ? 1 : int(r.range(1, 3));
     for (int rd = 0; rd < rounds; ++rd) {
@@ -105,7 +105,7 @@ void run_job(Ctx* cx, int j) {
 }
 
 void execute(const Workload& w, Result& res) {
-    const int p = int(1 + sim::modn(sim::cfg_at(w, C_POOL), 4));
+    const int p = int(1 + sim::modn(sim::cfg_at(w, C_POOL), 6));
     const bool scen_term = sim::modn(sim::cfg_at(w, C_SCEN), 2) == 1;
     const int waiters = int(1 + sim::modn(sim::cfg_at(w, C_WAITERS), 2));
     const bool abrupt = sim::modn(sim::cfg_at(w, C_DESTROY), 2) == 1;
